@@ -30,12 +30,12 @@ Record gen_fields (P : params) (L : lview) (hdr1 : header) (ev : evst) (hdr2 : h
   gf_load_off : p_loadtracking P = false -> h_load hdr2 = h_load hdr1
 }.
 
-Lemma eob_gen : forall P r L hdr1 ev hdr2 top,
+Lemma eob_gen : forall P c0 r L hdr1 ev hdr2 top,
   h_proposer hdr1 = 0 ->
-  end_of_block (Eg P r) L hdr1 ev = Ok (hdr2, top) ->
+  end_of_block (Eg P c0 r) L hdr1 ev = Ok (hdr2, top) ->
   top = ev_top ev /\ gen_fields P L hdr1 ev hdr2.
 Proof.
-  intros P r L hdr1 ev hdr2 top Hp0 H. unfold end_of_block in H.
+  intros P c0 r L hdr1 ev hdr2 top Hp0 H. unfold end_of_block in H.
   cbn [Eg e_P e_generate e_validate] in H.
   inv_bind H as h'. inv_bind Hb as [fees po]. inv_bind Hb as load. cbn [fst snd] in Hb. injection Hb as <-.
   inv_bind H as []. inv_bind H as top1.
@@ -125,36 +125,36 @@ Qed.
 
 (* ------------------------------------------------------------------ generate_validates *)
 (* everything eval_generate establishes, in one place *)
-Lemma generate_inv : forall P L r b pool parts ub,
-  eval_generate P L r b pool parts = Ok ub ->
+Lemma generate_inv : forall P c0 L r b pool parts ub,
+  eval_generate_cap P c0 L r b pool parts = Ok ub ->
   let hdr1 := set_start (hdr_template r b) (if p_genhash P then lv_genhash L else 0) (lv_nextrs L) in
   let l0 := put layer0 (lv_pool L) (base_lookup L (lv_pool L)) in
-  let ev := gen_groups (Eg P r) L (mkEv l0 [] 0) pool in
-  start (Eg P r) L (hdr_template r b) = Ok (hdr1, l0) /\
+  let ev := gen_groups (Eg P c0 r) L (mkEv l0 [] 0) pool in
+  start (Eg P c0 r) L (hdr_template r b) = Ok (hdr1, l0) /\
   gen_fields P L hdr1 ev (ub_hdr ub) /\
   ub_payset ub = ev_payset ev /\ ub_delta ub = ev_top ev /\
   ub_final ub = map (fun a => (a, lookup L [ev_top ev] a)) parts.
 Proof.
-  intros P L r b pool parts ub H hdr1 l0 ev. unfold eval_generate in H. fold (Eg P r) in H.
-  inv_bind H as [h1 l0']. destruct (start_gen _ _ _ _ _ _ Hb) as (Eh & El & _). subst h1 l0'.
+  intros P c0 L r b pool parts ub H hdr1 l0 ev. unfold eval_generate_cap in H. fold (Eg P c0 r) in H.
+  inv_bind H as [h1 l0']. destruct (start_gen _ _ _ _ _ _ _ Hb) as (Eh & El & _). subst h1 l0'.
   fold hdr1 l0 ev in H, Hb. inv_bind H as [hdr2 top].
   assert (Hp0 : h_proposer hdr1 = 0) by reflexivity.
-  destruct (eob_gen _ _ _ _ _ _ _ Hp0 Hb0) as [Et G]. subst top.
+  destruct (eob_gen _ _ _ _ _ _ _ _ Hp0 Hb0) as [Et G]. subst top.
   injection H as <-. cbn [ub_hdr ub_payset ub_delta ub_final]. auto.
 Qed.
 
-Theorem generate_validates_eq : forall P L r b pool parts proposer elig ub,
+Theorem generate_validates_eq : forall P c0 L r b pool parts proposer elig ub,
   p_applydata P = true ->
   (p_payouts P = true -> proposer <> 0) ->
-  eval_generate P L r b pool parts = Ok ub ->
+  eval_generate_cap P c0 L r b pool parts = Ok ub ->
   let blk := finish_block P ub proposer elig in
   eval_validate P L blk = finish_delta P L (b_hdr blk) (ub_delta ub).
 Proof.
-  intros P L r b pool parts proposer elig ub HA Hprop H blk.
-  destruct (generate_inv _ _ _ _ _ _ _ H) as (Hst & G & Eps & Ed & Ef).
+  intros P c0 L r b pool parts proposer elig ub HA Hprop H blk.
+  destruct (generate_inv _ _ _ _ _ _ _ _ H) as (Hst & G & Eps & Ed & Ef).
   set (hdr1 := set_start (hdr_template r b) (if p_genhash P then lv_genhash L else 0) (lv_nextrs L)) in *.
   set (l0 := put layer0 (lv_pool L) (base_lookup L (lv_pool L))) in *.
-  set (ev := gen_groups (Eg P r) L (mkEv l0 [] 0) pool) in *.
+  set (ev := gen_groups (Eg P c0 r) L (mkEv l0 [] 0) pool) in *.
   destruct ub as [hdr2 ps top finals]. cbn [ub_hdr ub_payset ub_delta ub_final] in *. subst ps top finals.
   destruct (gen_fields_proj _ _ _ _ _ G) as (Gr & Gb & Gp & Gg & Gs & Groot & Gcnt).
   subst blk. unfold eval_validate, eval_block. rewrite fin_hdr_b.
@@ -163,7 +163,7 @@ Proof.
     as (Fr & Fb & Fg & Fs & Froot & Fcnt & Ffees & Fload). fold hF in Fr, Fb, Fg, Fs, Froot, Fcnt, Ffees, Fload.
   assert (Hr : h_round hF = r) by (rewrite Fr, Gr; reflexivity).
   rewrite Hr. fold (Ev P r).
-  destruct (start_gen _ _ _ _ _ _ Hst) as (_ & _ & Hsv).
+  destruct (start_gen _ _ _ _ _ _ _ Hst) as (_ & _ & Hsv).
   rewrite (Hsv hF); cbn [bind].
   2: exact Hr.
   2: rewrite Fb, Gb; reflexivity.
@@ -171,7 +171,7 @@ Proof.
   2: rewrite Fs, Gs; reflexivity.
   2:{ intro El. rewrite Fload. destruct G as [_ _ _ _ Goff]. rewrite (Goff El). reflexivity. }
   cbn [finish_block b_payset ub_payset].
-  destruct (gen_run P r L pool (mkEv l0 [] 0) HA) as (gs & Hps & Hrun). cbn [ev_payset app] in Hps.
+  destruct (gen_run P c0 r L pool (mkEv l0 [] 0) HA) as (gs & Hps & Hrun). cbn [ev_payset app] in Hps.
   fold ev in Hps, Hrun. rewrite Hps, Hrun. cbn [bind].
   assert (Hp0 : h_proposer hdr1 = 0) by reflexivity.
   assert (Hf0 : h_fees hdr1 = 0) by reflexivity.
@@ -216,9 +216,9 @@ Proof.
     destruct (h_payout h =? 0) eqn:E2; [|discriminate]. apply N.eqb_eq in E2. auto.
 Qed.
 
-Theorem validate_unique : forall P L r b pool parts ub blk' d',
+Theorem validate_unique : forall P c0 L r b pool parts ub blk' d',
   p_applydata P = true ->
-  eval_generate P L r b pool parts = Ok ub ->
+  eval_generate_cap P c0 L r b pool parts = Ok ub ->
   Forall2 same_txns (ub_payset ub) (b_payset blk') ->
   eval_validate P L blk' = Ok d' ->
   b_payset blk' = ub_payset ub /\
@@ -228,14 +228,14 @@ Theorem validate_unique : forall P L r b pool parts ub blk' d',
   h_fees (b_hdr blk') = h_fees (ub_hdr ub) /\ h_load (b_hdr blk') = h_load (ub_hdr ub) /\
   h_payout (b_hdr blk') <= h_payout (ub_hdr ub).
 Proof.
-  intros P L r b pool parts ub [h' ps'] d' HA H HF HV. cbn [b_hdr b_payset] in *.
-  destruct (generate_inv _ _ _ _ _ _ _ H) as (Hst & G & Eps & Ed & Ef).
+  intros P c0 L r b pool parts ub [h' ps'] d' HA H HF HV. cbn [b_hdr b_payset] in *.
+  destruct (generate_inv _ _ _ _ _ _ _ _ H) as (Hst & G & Eps & Ed & Ef).
   set (hdr1 := set_start (hdr_template r b) (if p_genhash P then lv_genhash L else 0) (lv_nextrs L)) in *.
   set (l0 := put layer0 (lv_pool L) (base_lookup L (lv_pool L))) in *.
-  set (ev := gen_groups (Eg P r) L (mkEv l0 [] 0) pool) in *.
+  set (ev := gen_groups (Eg P c0 r) L (mkEv l0 [] 0) pool) in *.
   destruct (gen_fields_proj _ _ _ _ _ G) as (Gr & Gb & Gp & Gg & Gs & Groot & Gcnt).
   (* what the generator's own StartEvaluator established about r and b *)
-  destruct (start_gen _ _ _ _ _ _ Hst) as (_ & _ & Hsv).
+  destruct (start_gen _ _ _ _ _ _ _ Hst) as (_ & _ & Hsv).
   assert (Hs1 : start (Ev P r) L hdr1 = Ok (hdr1, l0)).
   { apply Hsv; try reflexivity. }
   destruct (start_val _ _ _ _ _ _ Hs1) as (_ & _ & Hr1 & Hb1 & _ & Hg1 & Hrs1).
@@ -246,7 +246,7 @@ Proof.
   assert (Er : h_round h' = r) by (rewrite Hr', Hr1; reflexivity).
   rewrite Er in HV. fold (Ev P r) in HV. fold l0 in HV.
   inv_bind HV as ev' eq Hrun'. inv_bind HV as [h2 top] eq Heob. inv_bind HV as [] eq Hld.
-  destruct (gen_run P r L pool (mkEv l0 [] 0) HA) as (gs & Hps & Hrun). cbn [ev_payset app] in Hps. fold ev in Hps, Hrun.
+  destruct (gen_run P c0 r L pool (mkEv l0 [] 0) HA) as (gs & Hps & Hrun). cbn [ev_payset app] in Hps. fold ev in Hps, Hrun.
   rewrite Eps, Hps in HF.
   assert (Egs : gs = ps') by (eapply run_val_unique; eauto). subst ps'.
   rewrite Hrun in Hrun'. injection Hrun' as <-.
@@ -273,9 +273,9 @@ Qed.
 
 (* the contrapositive, as the brief words it: a block over the same transactions in which a
    generate-computed field deviates is rejected *)
-Corollary validate_rejects_deviation : forall P L r b pool parts ub blk',
+Corollary validate_rejects_deviation : forall P c0 L r b pool parts ub blk',
   p_applydata P = true ->
-  eval_generate P L r b pool parts = Ok ub ->
+  eval_generate_cap P c0 L r b pool parts = Ok ub ->
   Forall2 same_txns (ub_payset ub) (b_payset blk') ->
   (b_payset blk' <> ub_payset ub \/                         (* some ApplyData differs *)
    h_genhash (b_hdr blk') <> h_genhash (ub_hdr ub) \/ h_rs (b_hdr blk') <> h_rs (ub_hdr ub) \/
@@ -284,8 +284,8 @@ Corollary validate_rejects_deviation : forall P L r b pool parts ub blk',
    h_payout (ub_hdr ub) < h_payout (b_hdr blk')) ->
   exists e, eval_validate P L blk' = Err e.
 Proof.
-  intros P L r b pool parts ub blk' HA H HF Hdev.
+  intros P c0 L r b pool parts ub blk' HA H HF Hdev.
   destruct (eval_validate P L blk') as [d'|e] eqn:HV; [|exists e; reflexivity]. exfalso.
-  destruct (validate_unique _ _ _ _ _ _ _ _ _ HA H HF HV) as (U1 & _ & _ & U2 & U3 & U4 & U5 & U6 & U7 & U8).
+  destruct (validate_unique _ _ _ _ _ _ _ _ _ _ HA H HF HV) as (U1 & _ & _ & U2 & U3 & U4 & U5 & U6 & U7 & U8).
   destruct Hdev as [D|[D|[D|[D|[D|[D|[D|D]]]]]]]; try (apply D; assumption). lia.
 Qed.
